@@ -1007,6 +1007,7 @@ def drift(ctx, key, n=1):
 
 
 def note_drift(ctx, a, doc, order, raw_doc=None):
+    drift(ctx, "documents_examined")
     if order != [n["idx"] for n in a["nodes"]]:
         drift(ctx, "documents_listing_nodes_out_of_index_order")
     pos = {i: k for k, i in enumerate(order)}
